@@ -26,6 +26,16 @@ class ExcV:
         return f"{self.name}@{self.where}" if self.where else self.name
 
 
+class ExcObjV:
+    """An exception instance that was created but not (yet) raised (`return SomeError(...)`)."""
+
+    def __init__(self, exc: ExcV):
+        self.exc = exc
+
+    def __repr__(self):
+        return f"ExcObj<{self.exc!r}>"
+
+
 class AbsRaise(Exception):
     def __init__(self, exc: ExcV):
         self.exc = exc
